@@ -36,6 +36,17 @@ struct World {
     long serial = 0; std::vector<std::string> focus;
     Group gC; Tag tC; MultiTag mC; DataArray aC;   // the handles returned by the create calls (first session only): members are ADDED through them, everything is READ through looked-up handles
     explicit World(Ctx &cx) : c(cx), r(cx.rng) {}
+    // HDF5 path of the container behind a tracked key (skeleton names are fixed), "" if not mapped
+    static std::string h5path(const std::string &key) {
+        static const std::map<std::string, std::string> m = {{"file.blocks", "/data"}, {"file.sections", "/metadata"}, {"section[S0].sections", "/metadata/S0/sections"}, {"block[B0].dataArrays", "/data/B0/data_arrays"}, {"block[B0].tags", "/data/B0/tags"},
+            {"block[B0].multiTags", "/data/B0/multi_tags"}, {"block[B0].sources", "/data/B0/sources"}, {"block[B0].groups", "/data/B0/groups"}, {"block[B0].dataFrames", "/data/B0/data_frames"}, {"source[src0].sources", "/data/B0/sources/src0/sources"}};
+        auto it = m.find(key); return it == m.end() ? std::string() : it->second;
+    }
+    // a name that puts the child's HDF5 path right on or next to a power-of-two length (fixed-size path buffers fail exactly there)
+    std::string boundary_name(const std::string &container_path) {
+        static const long targets[] = {63, 64, 65, 127, 128, 129, 255, 256, 257}; long t = r.pick(targets), len = t - (long)container_path.size() - 1; std::string n = "b" + str(serial++) + "_";
+        if (len < (long)n.size()) return fresh_name(); return n + std::string((size_t)(len - (long)n.size()), 'p');
+    }
     std::string fresh_name() { for (;;) { std::string n = gen_name(r, serial++, 45); if (n == ".") continue; return n; } }
 
     // (re)bind the skeleton and the container adaptors to the open file
@@ -223,7 +234,7 @@ struct World {
                 std::vector<NI> cand; for (auto &x : shadow[owner]) { bool in = false; for (auto &y : sh) if (y.second == x.second) in = true; if (!in) cand.push_back(x); }
                 if (cand.empty()) return; nm = cand[r.u(cand.size())].first;
             } else {
-                nm = (k.named && !sh.empty() && r.chance(0.15)) ? sh[r.u(sh.size())].first : fresh_name();   // sometimes an existing name on purpose
+                nm = (k.named && !sh.empty() && r.chance(0.15)) ? sh[r.u(sh.size())].first : (k.named && !h5path(k.key).empty() && r.chance(0.07)) ? boundary_name(h5path(k.key)) : fresh_name();   // sometimes an existing name on purpose, sometimes one of a critical path length
                 std::string sib = sibling(k.key); if (!sib.empty() && r.chance(0.35) && !shadow[sib].empty()) { std::string cand = shadow[sib][r.u(shadow[sib].size())].first; if (cand != "c") nm = cand; }   // or the name of a child of the sibling container
             }
             bool dup = false; if (k.named && !k.membership) for (auto &x : sh) if (x.first == nm) dup = true;
